@@ -79,6 +79,35 @@ PAIRS["gzlib.c:gzoffset"] = [G + "gzoffset64"]
 for _k in ("gzwrite.c:gz_init", "gzlib.c:gzseek64", "gzlib.c:gztell64", "gzlib.c:gzoffset64"):
     PAIRS.pop(_k, None)
 
+# second batch: the remaining functions of the reference that have a one-to-one counterpart (added after the helper-walk fix)
+PAIRS.update({
+    "inftrees.c:zng_inflate_table": [Z + "inflate::inftrees::inflate_table"],
+    "inflate.c:inflateResetKeep": [Z + "inflate::reset_keep"],
+    "inflate.c:inflateReset": [Z + "inflate::reset"],
+    "inflate.c:inflateEnd": [Z + "inflate::end"],
+    "inflate.c:inflateValidate": [Z + "inflate::validate"],
+    "inflate.c:syncsearch": [Z + "inflate::syncsearch"],
+    "inffast_tpl.h:INFLATE_FAST": [Z + "inflate::inflate_fast_help_impl"],
+    "deflate.c:deflateReset": [Z + "deflate::reset"],
+    "deflate.c:lm_init": [Z + "deflate::lm_init"],
+    "deflate.c:deflateEnd": [Z + "deflate::end"],
+    "deflate.c:deflateGetDictionary": [Z + "deflate::get_dictionary"],
+    "deflate.c:deflateSetHeader": [Z + "deflate::set_header"],
+    "deflate.c:flush_pending": [Z + "deflate::flush_pending"],
+    "compress.c:compress2": [Z + "deflate::compress_with_flush", Z + "deflate::compress"],
+    "uncompr.c:uncompress2": [Z + "inflate::uncompress2", Z + "inflate::uncompress"],
+    "trees.c:send_all_trees": [Z + "deflate::send_all_trees"],
+    "trees.c:compress_block": [Z + "deflate::BitWriter::compress_block_help"],
+    "trees.c:init_block": [Z + "deflate::State::init_block"],
+    "trees.c:zng_tr_stored_block": [Z + "deflate::zng_tr_stored_block"],
+    "trees.c:gen_codes": [Z + "deflate::gen_codes"],
+    "trees.c:pqdownheap": [Z + "deflate::Heap::pqdownheap"],
+    "match_tpl.h:LONGEST_MATCH": [Z + "deflate::longest_match::longest_match_help"],
+    "gzlib.c:gzerror": [G + "gzerror"],
+    "gzlib.c:gzdopen": [G + "gzdopen"],
+    "crc32_braid_comb.c:crc32_combine_gen": [Z + "crc32::combine::crc32_combine_gen", Z + "crc32::combine::x2nmodp"],
+})
+
 ENUMS = {
     "Z_FINISH": "Finish", "Z_NO_FLUSH": "NoFlush", "Z_BLOCK": "Block", "Z_FULL_FLUSH": "FullFlush", "Z_PARTIAL_FLUSH": "PartialFlush",
     "Z_SYNC_FLUSH": "SyncFlush", "Z_TREES": "Trees",
